@@ -41,6 +41,10 @@ type gateServer struct {
 	ln       net.Listener
 	srv      *http.Server
 	writable bool
+	// failKind/failAt: answer the k-th request of that method with 500 (0 = none); failed counts deliveries
+	failKind string
+	failAt   int
+	failed   int
 }
 
 func newGateServer(writable bool) (*gateServer, error) {
@@ -71,10 +75,18 @@ func (g *gateServer) ServeHTTP(w http.ResponseWriter, r *http.Request) {
 	g.log = append(g.log, r.Method+" "+r.URL.Path)
 	g.seen[r.Method]++
 	hold := g.holdAt > 0 && r.Method == g.holdKind && g.seen[r.Method] == g.holdAt
+	fail := g.failAt > 0 && r.Method == g.failKind && g.seen[r.Method] == g.failAt
 	g.mu.Unlock()
 	if hold {
 		close(g.held)
 		<-g.release
+	}
+	if fail {
+		g.mu.Lock()
+		g.failed++
+		g.mu.Unlock()
+		http.Error(w, "injected failure", 500)
+		return
 	}
 	switch r.Method {
 	case "GET":
